@@ -173,7 +173,7 @@ class ExactWorld:
 
         def goe(args, kw):
             self.graph_calls.append(args)
-            g = Obj("GRAPH", methods={"components": lambda ev, call, a, k: [list(s) for s in self.sccs]})
+            g = chain_graph(self.sccs)
             pos = args[0]
             n = len(pos.rows) if isinstance(pos, Mat) else None
             cube = self.cube if (self.cube is not None and (n is None or n == self.cube.n)) else cost_cube(n)
@@ -292,6 +292,26 @@ class PulpProblem(Obj):
         if name in self.methods:
             return None
         raise Unsupported(f"attribute {name} of LpProblem", node)
+
+
+def chain_graph(sccs):
+    """A graph whose strongly connected components are exactly `sccs`, in that (then unique) topological order: a cycle
+    inside each component, one arc from each component to the next."""
+    from ..engines.npmodel import GraphObj
+    g = GraphObj()
+    g.directed = True
+    n = sum(len(s) for s in sccs)
+    g.vertices = [str(i) for i in range(n)]
+    for k, scc in enumerate(sccs):
+        scc = list(scc)
+        if len(scc) > 1:
+            for a, b in zip(scc, scc[1:] + scc[:1]):
+                g.edges.append((a, b))
+        if k + 1 < len(sccs):
+            g.edges.append((scc[0], list(sccs[k + 1])[0]))
+    got = g.components().clusters
+    assert got == [sorted(s) for s in sccs], (got, sccs)
+    return g
 
 
 class PulpWorld(ExactWorld):
